@@ -5,4 +5,11 @@ from excel2pycl.src.tokens import EntryPointToken
 class AstBuilder:
     @classmethod
     def parse(cls, expression: list, in_cell: Cell):
-        return EntryPointToken.get(expression, in_cell)[0]
+        from excel2pycl.src.tokens.composite_base_token import CompositeBaseToken
+
+        previous_table = getattr(CompositeBaseToken._MEMO, 'table', None)
+        CompositeBaseToken._MEMO.table = {}
+        try:
+            return EntryPointToken.get(expression, in_cell)[0]
+        finally:
+            CompositeBaseToken._MEMO.table = previous_table
